@@ -426,6 +426,11 @@ func (ms *MidState) createImmatureSiacoinElement(id types.SiacoinOutputID, sco t
 func (ms *MidState) spendSiacoinElement(sce types.SiacoinElement, txid types.TransactionID) {
 	sced := ms.recordSiacoinElement(sce.ID)
 	sced.SiacoinElement = sce.Copy()
+	if sced.Created {
+		// an element created in this block has no proof yet, whatever the
+		// spender presented
+		sced.SiacoinElement.StateElement.MerkleProof = nil
+	}
 	sced.Spent = true
 	ms.spends[sce.ID] = txid
 }
@@ -454,6 +459,10 @@ func (ms *MidState) createSiafundElement(id types.SiafundOutputID, sfo types.Sia
 func (ms *MidState) spendSiafundElement(sfe types.SiafundElement, txid types.TransactionID) {
 	sfed := ms.recordSiafundElement(sfe.ID)
 	sfed.SiafundElement = sfe.Copy()
+	if sfed.Created {
+		// see spendSiacoinElement
+		sfed.SiafundElement.StateElement.MerkleProof = nil
+	}
 	sfed.Spent = true
 	ms.spends[sfe.ID] = txid
 }
